@@ -282,6 +282,14 @@ class InMemoryStorage(BaseStorage):
             if state == TrialState.RUNNING:
                 trial.datetime_start = datetime.now()
 
+            if state == TrialState.WAITING:
+                # The trial is queued (again): the scan for ``WAITING`` trials in
+                # ``get_all_trials`` must not start behind it.
+                study_id, number = self._trial_id_to_study_id_and_number[trial_id]
+                self._prev_waiting_trial_number[study_id] = min(
+                    self._prev_waiting_trial_number[study_id], number
+                )
+
             if state.is_finished():
                 trial.datetime_complete = datetime.now()
                 self._set_trial(trial_id, trial)
